@@ -92,7 +92,7 @@ def gen(seed, run, sub="files", tier="quick"):
         if sers and r.random() < 0.7:
             via_config["direct"] = sers[0]
     scn = {
-        "via_config": via_config,
+        "via_config": via_config, "poison_check": r.random() < 0.25,
         "lane": "c14", "sub": sub, "line_ending": r.choice(["os", "\\n", "\\r\\n", "\\r\\n", "\\r"]), "writers": writers,
         "ops": ops, "draws": common.gen_draws(r) if sub == "mixed" else {},
         "cfg": {"greeting": r.choice(["start", ""]), "boot": 0.0, "drop_while_booting": False,
@@ -470,6 +470,41 @@ def execute(scn, guide=None, keep=False):
             except Exception as e:
                 V("unexpected-exception", op=op[:2], exc="%s: %s" % (type(e).__name__, str(e)[:80]))
                 break
+        if scn.get("poison_check"):
+            # a writer fails once; the statements after it must still reach every writer
+            class Flaky(Rec):
+                def write(self_, statement):
+                    if not self_.log:
+                        self_.log.append(("failed",))
+                        raise OSError(5, "Input/output error")
+                    Rec.write(self_, statement)
+            fl = Flaky("flaky")
+            try:
+                g.get_writer(0)
+            except IndexError:
+                g.add_writer(r0)
+            g.add_writer(fl)
+            n0 = len(r0.lines())
+            try:
+                g.write("G4 P1 ; the flaky writer fails on this one")
+                V("poison-check", problem="no exception for a failing writer")
+            except SimAbort:
+                raise
+            except Exception:
+                pass
+            try:
+                g.write("G4 P2 ; after the failure")
+                g.emergency_halt("after the failure")
+            except SimAbort:
+                raise
+            except Exception as e:
+                V("poison-check", problem="later write raised", exc="%s: %s" % (type(e).__name__, str(e)[:60]))
+            got_r0 = len(r0.lines()) - n0
+            if got_r0 != 6 or len(fl.lines()) != 5:
+                V("poison-check", problem="statements after a failed write were not delivered",
+                  r0_lines=got_r0, flaky_lines=len(fl.lines()))
+            k.probe("c14.poison_check")
+            seen = len(r0.lines())
         # delivery to recording writers: the lines R0 saw while they were registered
         for w in pool:
             if w.kind == "custom" and w.obj.lines() != split_like(w.expected, w.obj.lines()):
